@@ -1,6 +1,7 @@
 import Drv.Base
 import Drv.Blocks
 import PdtModel.Model.Write
+import PdtModel.Model.WriteWF
 open Lean Pdt Pdt.Reader Pdt.Represent Pdt.Write
 namespace Drv
 
@@ -55,6 +56,12 @@ def handleWrite (op : String) (j : Json) : Option (Except String Json) :=
     let text ← getStr j "text"
     let ext ← extOfJson (← j.getObjVal? "ext")
     pure (resultToJson (readCsv ext sep text))
+  | "wf_check" => some do
+    let ts ← (← getArr j "tables").mapM wTableValOfJson
+    let sep ← wGetChar j "sep"
+    let na ← getStr j "na_rep"
+    let ext ← extOfJson (← j.getObjVal? "ext")
+    pure (arr (ts.map fun t => Json.bool (wfCheck ext sep na t)))
   | _ => none
 
 end Drv
